@@ -17,7 +17,7 @@ func init() { register(c14{}) }
 
 func (c14) ID() string     { return "C14" }
 func (c14) Level() string  { return "exploration" }
-func (c14) QuickRuns() int { return 4800 }
+func (c14) QuickRuns() int { return 14400 }
 func (c14) Rule() string {
 	return "free-running mode: the real engines, drivers and multi-run aggregation run inside a synctest bubble (fake clock only) with NO scheduler goroutine, over an unsynchronised pre-seeded wire (replies derived from the latest probe's bytes, including replies for TTLs that are not probed yet and destination replies that stop the sender), in a binary built with -race at GOMAXPROCS 1/4/16; seeded mixes of every parallel-capable variant, 1-4 concurrent protocol-level runs, RunTraceroute with 1-3 runs + 0-3 end-to-end probes + reverse-DNS fan-out, and a free-running stress of the identifier allocator; any race-detector report with a frame in github.com/DataDog/datadog-traceroute is a violation keyed by its two access sites; non-trivial = sender and receiver goroutines overlapped (at least two probes sent and one reply read); distinct = distinct scenario shapes"
 }
